@@ -640,6 +640,83 @@ def get_qobj_rule():
     return "expand_operator(compact, dims, controls + targets)"
 
 
+def circuit_fresh_rule():
+    """What a FRESH circuit is (circuit.py, also gateclass.py / circuitsimulator.py): `QubitCircuit.__init__` must have only
+    immutable literals as parameter defaults and create its containers per object (`self.gates = []`,
+    `if user_gates is None: self.user_gates = {}` / `elif dict: self.user_gates = user_gates` / else raise); no `__init__`
+    of these modules (nor add_gate, add_circuit, _get_gate_unitary, propagators) has a mutable default; no class of these
+    modules has a class-level container; the only stores into a circuit's user_gates outside `__init__` are the inheritance
+    loop of `add_circuit` (`if user_gate in self.user_gates and not overwrite_user_gates: continue;
+    self.user_gates[user_gate] = qc.user_gates[user_gate]`).  -> the rule as a string"""
+    base = os.path.join(REPO, "src", "qutip_qip")
+    files = [os.path.join(base, "circuit", "circuit.py"), os.path.join(base, "operations", "gateclass.py"),
+             os.path.join(base, "circuit", "circuitsimulator.py")]
+
+    def immutable(d):
+        return isinstance(d, ast.Constant) or (isinstance(d, ast.UnaryOp) and isinstance(d.operand, ast.Constant)) \
+            or (isinstance(d, ast.Tuple) and all(immutable(x) for x in d.elts))
+
+    watched = {"__init__", "add_gate", "add_circuit", "_get_gate_unitary", "propagators", "get_qobj", "get_compact_qobj"}
+    qc_cls = None
+    for f in files:
+        tree = ast.parse(open(f).read())
+        for c in tree.body:
+            if not isinstance(c, ast.ClassDef):
+                continue
+            if c.name == "QubitCircuit":
+                qc_cls = c
+            for st in c.body:
+                if isinstance(st, (ast.Assign, ast.AnnAssign)):
+                    v = st.value
+                    if v is not None and not immutable(v):
+                        raise TranslatorError(f"class {c.name}: class-level attribute {ast.unparse(st)[:60]} is shared by all objects")
+                if isinstance(st, ast.FunctionDef) and st.name in watched:
+                    for d in st.args.defaults + [x for x in st.args.kw_defaults if x is not None]:
+                        if not immutable(d):
+                            raise TranslatorError(f"{c.name}.{st.name}: mutable default argument {ast.unparse(d)[:40]} "
+                                                  "(one object shared by all calls)")
+    if qc_cls is None:
+        raise TranslatorError("class QubitCircuit not found")
+    init = next((m for m in qc_cls.body if isinstance(m, ast.FunctionDef) and m.name == "__init__"), None)
+    if init is None:
+        raise TranslatorError("QubitCircuit.__init__ not found")
+    src = [ast.unparse(st) for st in init.body]
+    if "self.gates = []" not in src:
+        raise TranslatorError("QubitCircuit.__init__: `self.gates = []` not found")
+    ug = [st for st in init.body if isinstance(st, ast.If) and ast.unparse(st.test) == "user_gates is None"]
+    ok = len(ug) == 1 and [ast.unparse(x) for x in ug[0].body] == ["self.user_gates = {}"] and len(ug[0].orelse) == 1 \
+        and isinstance(ug[0].orelse[0], ast.If) and ast.unparse(ug[0].orelse[0].test) == "isinstance(user_gates, dict)" \
+        and [ast.unparse(x) for x in ug[0].orelse[0].body] == ["self.user_gates = user_gates"] \
+        and len(ug[0].orelse[0].orelse) == 1 and isinstance(ug[0].orelse[0].orelse[0], ast.Raise)
+    if not ok:
+        raise TranslatorError("QubitCircuit.__init__: `if user_gates is None: self.user_gates = {}` / dict / raise not recognised")
+    stores = []
+    for m in qc_cls.body:
+        if not isinstance(m, ast.FunctionDef) or m.name == "__init__":
+            continue
+        for n in ast.walk(m):
+            tg = n.targets if isinstance(n, ast.Assign) else [n.target] if isinstance(n, (ast.AugAssign, ast.AnnAssign)) else \
+                n.targets if isinstance(n, ast.Delete) else []
+            for t in tg:
+                if "user_gates" in ast.unparse(t):
+                    stores.append((m.name, ast.unparse(n)))
+            if isinstance(n, ast.Call) and isinstance(n.func, ast.Attribute) and "user_gates" in ast.unparse(n.func.value) \
+                    and n.func.attr in ("update", "setdefault", "pop", "clear", "popitem", "__setitem__", "__delitem__"):
+                stores.append((m.name, ast.unparse(n)))
+    if stores != [("add_circuit", "self.user_gates[user_gate] = qc.user_gates[user_gate]")]:
+        raise TranslatorError(f"QubitCircuit: stores into user_gates outside __init__: {stores}")
+    ac = next(m for m in qc_cls.body if isinstance(m, ast.FunctionDef) and m.name == "add_circuit")
+    loops = [n for n in ac.body if isinstance(n, ast.For) and ast.unparse(n.iter) == "qc.user_gates"]
+    ok = len(loops) == 1 and ast.unparse(loops[0].target) == "user_gate" and len(loops[0].body) == 2 \
+        and isinstance(loops[0].body[0], ast.If) \
+        and ast.unparse(loops[0].body[0].test) == "user_gate in self.user_gates and (not overwrite_user_gates)" \
+        and [ast.unparse(x) for x in loops[0].body[0].body] == ["continue"] and not loops[0].body[0].orelse \
+        and ast.unparse(loops[0].body[1]) == "self.user_gates[user_gate] = qc.user_gates[user_gate]"
+    if not ok:
+        raise TranslatorError("QubitCircuit.add_circuit: inheritance loop of the user gates not recognised")
+    return "new-dict-per-circuit"
+
+
 def lean_bool(b):
     return "true" if b else "false"
 
@@ -673,6 +750,10 @@ def render(tables=None):
     L.append("/-- `Gate.get_qobj(dims)` and `propagators(expand=True)`: the compact matrix expanded with targets = the stored\n"
              "controls followed by the targets (extracted; no class overrides get_qobj / get_all_qubits) -/")
     L.append(f'def gateGetQobj : String := "{get_qobj_rule()}"\n')
+    L.append("/-- a circuit built without `user_gates` gets a NEW empty dictionary (immutable parameter defaults, containers\n"
+             "created per object, no class-level containers; the only store into it outside `__init__` is the inheritance\n"
+             "loop of `add_circuit`) — extracted from circuit.py / gateclass.py / circuitsimulator.py -/")
+    L.append(f'def circuitDefaultUserGates : String := "{circuit_fresh_rule()}"\n')
     L.append("end QipVerif.Gen.G")
     return "\n".join(L) + "\n", d
 
